@@ -131,11 +131,12 @@ PROPS["C04"] = {
 PROPS["C07"] = {
     "explanation": "Frame assertions inside the ASA and NSX converge harnesses (bounded symbolic execution of the real GetChanges / diffConfig): an object-group whose name lacks the generated-name tag and that no managed object references must survive the script textually unchanged and no emitted command may name it (ASA); no emitted REST call may address an id without the Netspoc prefix (NSX).",
     "bounds": {"quick": "as C01 quick (ASA, unmanaged object-group present/absent), C04 quick (NSX URLs), ASA object graph with up to 3 manually created referrers (about 28 000 block combinations)", "thorough": "as C01/C04 thorough; object graph with banner variants (about 55 000 combinations)"},
-    "outside": "IOS unknown interfaces/VRFs, ASA ACLs of unknown interfaces, crypto maps, unmanaged objects referenced from managed ones, PAN-OS vsys scoping, NSX LoadDevice filter (getRawJSON)",
+    "outside": "IOS unknown interfaces/VRFs, ASA ACLs of unknown interfaces, crypto maps, unmanaged objects referenced from managed ones, PAN-OS objects outside the vsys at LoadDevice level",
     "selftest": "asa_parse", 
     "runs": [
         {"entry": ASA_ACL, "quick": {"N": "2", "K": "6", "G": "1"}, "thorough": {"N": "2", "K": "6", "G": "2"}, "extra": {"maxpaths": 3000000}},
         {"entry": NSX, "quick": {"N": "2", "G": "1", "seqs": "1"}, "thorough": {"N": "2", "G": "2", "seqs": "1"}, "extra": {"maxpaths": 5000000}},
+        {"entry": M + "/pkg/device.VerifDialogueNSX", "params": {"mode": "approve"}, "covers": ["approve succeeded"]},
         dict(_graph_run, covers=["protected object checked", "unmanaged ldap attribute-map on device", "unmanaged tunnel-group on device", "unmanaged group-policy on device", "left-over generated group-policy on device"]),
     ],
 }
@@ -157,28 +158,30 @@ DOAPP = M + "/pkg/doapprove."
 _dlg_level = "Bounded symbolic execution (gosx) of the real device.ApproveOrCompare -> getRealDevice, loadDevice, (asa|ios|linux).LoadDevice, cisco.LoginEnable/checkBanner, checkDeviceName, console.* (GetSSHConn, Send, expectLog, StripEcho, ...), getCompare, approve/compare, ApplyCommands, cmd, isValidOutput, writeMem, errlog.Abort/HandleAbort against a line-oriented device simulator (harness Go code, itself symbolically executed) reached through stubs of the goexpect library; fault kind and dialogue position are solver variables. Counterexamples are replayed natively: the real binary code talks to the same simulator running as an external process behind a real pty and the real goexpect."
 PROPS["C09"] = {
     "explanation": _dlg_level + " C09: after a device-side failure (error text, unexpected output, garbled echo, no answer, connection closed, unconfirmed write memory, non-zero exit status on Linux) at any position, no further change command and no save is sent, exit status != 0, ERROR>>> printed; do-approve level: status file FAILED/DIFF, history END: FAILED; OK only if all commands were sent and the save confirmed.",
-    "bounds": {"quick": "ASA, IOS, Linux: one fixed change script each (3-6 commands incl. joined replacement), one fault of 8 (Linux 5) kinds at every dialogue position; PAN-OS: one change script (2 config commands + commit + job poll), one fault (HTTP status 500, API status error, malformed XML, transport error, job FAIL) at every request; do-approve.Main approve and compare on ASA", "thorough": "same (the fault space is exhausted)"},
-    "outside": "NSX (HTTP) dialogue, two or more faults, chunked arrival / timing of device output, local file system faults, other change scripts",
+    "bounds": {"quick": "ASA, IOS, Linux: one fixed change script each (3-6 commands incl. joined replacement), one fault of 8 (Linux 5) kinds at every dialogue position; PAN-OS: one change script (2 config commands + commit + job poll), one fault (HTTP status 500, API status error, malformed XML, transport error, job FAIL) at every request; NSX: one change script (6 requests) with one fault (status 500/400/403, invalid JSON, transport error) at every request incl. login and paged listing; do-approve.Main approve and compare on ASA", "thorough": "same (the fault space is exhausted)"},
+    "outside": "two or more faults, chunked arrival / timing of device output, local file system faults, other change scripts",
     "selftest": "asa_acl|ios_acl|linux_route|drc",
     "runs": [
         {"entry": DEV + "VerifDialogueASA", "params": {"mode": "approve"}, "covers": ["failure injected", "approve succeeded", "fault reached"]},
         {"entry": DEV + "VerifDialogueIOS", "params": {"mode": "approve"}, "covers": ["failure injected", "approve succeeded"]},
         {"entry": DEV + "VerifDialogueLinux", "params": {"mode": "approve"}, "covers": ["failure injected", "fault reached"]},
         {"entry": DEV + "VerifDialoguePAN", "params": {"mode": "approve"}, "covers": ["failure injected", "approve succeeded", "fault reached"]},
+        {"entry": DEV + "VerifDialogueNSX", "params": {"mode": "approve"}, "covers": ["failure injected", "approve succeeded", "fault reached"]},
         {"entry": DOAPP + "VerifDoApprove", "params": {"action": "approve"}, "covers": ["failure injected", "OK recorded"]},
         {"entry": DOAPP + "VerifDoApprove", "params": {"action": "compare"}, "covers": ["failure injected"]},
     ],
 }
 PROPS["C11"] = {
     "explanation": _dlg_level + " C11: in compare mode (device.ApproveOrCompare isCompare, doapprove.Main compare) no line of the computed change script, no 'write memory', no reload command is ever sent, whatever fault is injected at whatever position; the only configuration-mode sequence is the ASA terminal width triple.",
-    "bounds": {"quick": "ASA, IOS, Linux, PAN-OS with a non-empty difference; one fault of 8 (5) kinds at every position; do-approve compare on ASA", "thorough": "same"},
-    "outside": "NSX, drc -C flag parsing (drc.Main is covered by the C12 harness), interlock outcomes other than faults",
+    "bounds": {"quick": "ASA, IOS, Linux, PAN-OS, NSX with a non-empty difference; one fault of 8 (5) kinds at every position; do-approve compare on ASA", "thorough": "same"},
+    "outside": "drc -C flag parsing (drc.Main is covered by the C12 harness), interlock outcomes other than faults",
     "selftest": "asa_acl|ios_acl|drc",
     "runs": [
         {"entry": DEV + "VerifDialogueASA", "params": {"mode": "compare"}, "covers": ["compare run checked"]},
         {"entry": DEV + "VerifDialogueIOS", "params": {"mode": "compare"}, "covers": ["compare run checked"]},
         {"entry": DEV + "VerifDialogueLinux", "params": {"mode": "compare"}, "covers": ["compare run checked"]},
         {"entry": DEV + "VerifDialoguePAN", "params": {"mode": "compare"}, "covers": ["compare run checked"]},
+        {"entry": DEV + "VerifDialogueNSX", "params": {"mode": "compare"}, "covers": ["compare run checked"]},
         {"entry": DOAPP + "VerifDoApprove", "params": {"action": "compare"}, "covers": ["compare run checked"]},
     ],
 }
@@ -206,8 +209,8 @@ PROPS["C15"] = {
 }
 PROPS["C17"] = {
     "explanation": _dlg_level + " C17: the login password (with characters that need URL escaping) is searched in every sink: session logs .login/.config/.change/.cmp, run log, history, status file, stdout, stderr, for success and for every fault kind/position (assertions inside the C06/C09/C11 harnesses).",
-    "bounds": {"quick": "ASA, IOS, Linux SSH dialogues incl. do-approve on ASA; all fault kinds/positions of C09; PAN-OS: API key (with + / = characters) and password in every sink for every HTTP fault kind/position", "thorough": "same"},
-    "outside": "NSX session token / password (HTTP dialogue harness for NSX not built); passwords entered interactively",
+    "bounds": {"quick": "ASA, IOS, Linux SSH dialogues incl. do-approve on ASA; all fault kinds/positions of C09; PAN-OS: API key (with + / = characters) and password in every sink for every HTTP fault kind/position; NSX: password and session token likewise", "thorough": "same"},
+    "outside": "passwords entered interactively; secrets in files the tool does not write",
     "selftest": "asa_acl|pan-os",
     "runs": [
         {"entry": DEV + "VerifDialogueASA", "params": {"mode": "approve"}},
@@ -216,6 +219,8 @@ PROPS["C17"] = {
         {"entry": DEV + "VerifUnmanagedASA"},
         {"entry": DEV + "VerifDialoguePAN", "params": {"mode": "approve"}},
         {"entry": DEV + "VerifDialoguePAN", "params": {"mode": "compare"}},
+        {"entry": DEV + "VerifDialogueNSX", "params": {"mode": "approve"}},
+        {"entry": DEV + "VerifDialogueNSX", "params": {"mode": "compare"}},
         {"entry": DOAPP + "VerifDoApprove", "params": {"action": "approve"}},
         {"entry": DOAPP + "VerifDoApprove", "params": {"action": "compare"}},
     ],
